@@ -172,12 +172,15 @@ pub enum CardExpect {
     Err,
     /// Abort with this code: an error identifying it.
     AbortErr(u8),
+    /// Not judged (raw, possibly malformed status data of the no-hang check).
+    Any,
 }
 
 pub fn card_expect(kind: &CardKind) -> CardExpect {
     match kind {
         CardKind::Abort(0x6c) => CardExpect::NoCard,
         CardKind::Abort(c) => CardExpect::AbortErr(*c),
+        CardKind::RawTlv(_) => CardExpect::Any,
         CardKind::Card { no_tlv: true, .. } => CardExpect::Err,
         CardKind::Card { uid, apps, .. } => {
             let apps = apps.clone().unwrap_or_default();
@@ -659,6 +662,7 @@ pub fn judge_fault_free(plan: &ClientPlan, run: &ClientRun) -> Judged {
                     _ => {}
                 }
             }
+            OpSpec::ReadCard { card } if matches!(card.kind, CardKind::RawTlv(_)) => {}
             OpSpec::ReadCard { card } => {
                 if pk.len() != 1 || pk[0].cf != (0x06, 0xc0) {
                     j.fail("C18", "read_card_request", "read_card", format!("read_card sent {:?}", pk.iter().map(|p| p.cf).collect::<Vec<_>>()));
@@ -993,6 +997,7 @@ pub fn judge_under_faults(plan: &ClientPlan, run: &ClientRun) -> Judged {
                 // whatever the transport does, a card is never classified wrongly
                 let want = card_expect(&card.kind);
                 let bad = match (&o.result, &want) {
+                    (_, CardExpect::Any) => false,
                     (OpResult::Ok(OkVal::Bank), CardExpect::Bank | CardExpect::BankOrErr) => false,
                     (OpResult::Ok(OkVal::Membership(m)), CardExpect::Membership(w) | CardExpect::MembershipOrErr(w)) => m != w,
                     (OpResult::Ok(_), _) => true,
@@ -1007,6 +1012,20 @@ pub fn judge_under_faults(plan: &ClientPlan, run: &ClientRun) -> Judged {
                     }));
                 } else if o.result.is_ok() {
                     j.stats.hit("probe.card_classified_after_retry");
+                }
+                // bounded liveness: when the only trouble of the whole run were connections the terminal
+                // closed cleanly between two exchanges, a card it presents is read after the reconnect
+                {
+                    let definite = matches!(want, CardExpect::Bank | CardExpect::Membership(_));
+                    let only_idle_closes = !all_fired.is_empty()
+                        && all_fired.iter().all(|f| f.kind == FaultKind::CloseIdle)
+                        && run.connect_log.iter().all(|(_, c)| matches!(c, crate::client::ConnectSpec::Ok));
+                    if definite && only_idle_closes {
+                        j.stats.hit("probe.card_after_idle_close");
+                        if !o.result.is_ok() {
+                            j.fail("C18", "card_lost_after_idle_close", "under_faults", format!("the connection was merely closed between two exchanges; the terminal presents {:?}, yet read_card returned {}", card.kind, o.result.class()));
+                        }
+                    }
                 }
                 // ... and a card the terminal did deliver is not lost: when the last read-card exchange
                 // of the call ran to its end (status information emitted, no fault on it), trouble in an
